@@ -54,6 +54,7 @@ type Run struct {
 	vfiles     map[string]int
 	inconcl    map[string]int64
 	samples    []any
+	firstKey   string // first non-trivial evaluation key: the sample of last resort
 	sampleSeen map[string]bool
 	extras     map[string]any
 	curFile    *os.File
@@ -207,6 +208,9 @@ func (r *Run) Eval(key string) {
 	}
 	h := Hash64(key)
 	r.mu.Lock()
+	if r.firstKey == "" {
+		r.firstKey = key
+	}
 	if len(r.keys) < maxKeys {
 		r.keys[h] = struct{}{}
 	} else if _, ok := r.keys[h]; !ok {
@@ -391,7 +395,7 @@ func (r *Run) Finish() {
 		"violations":      r.viol,
 		"violation_count": vcs,
 		"inconclusive":    r.inconcl,
-		"samples":         r.samples,
+		"samples":         r.samplesOrFirstKey(),
 		"extras":          r.extras,
 		"wall_s":          time.Since(r.start).Seconds(),
 		"replaying":       r.replayID != "",
@@ -415,4 +419,24 @@ func (r *Run) Finish() {
 	if len(r.viol) > 0 {
 		r.t.Logf("%d violation record(s)", len(r.viol))
 	}
+}
+
+// samplesOrFirstKey returns the recorded samples; a monitor that recorded none (its sampling condition was not
+// met in this run) still shows one actual case: the key of its first non-trivial evaluation (an input text or a
+// rendering of the case), clipped.
+func (r *Run) samplesOrFirstKey() []any {
+	if len(r.samples) > 0 || r.firstKey == "" {
+		return r.samples
+	}
+	k := r.firstKey
+	if len(k) > 1500 {
+		k = k[:1500] + "…"
+	}
+	k = strings.Map(func(c rune) rune {
+		if c == '\n' || c == '\t' || (c >= 0x20 && c != 0x7f) {
+			return c
+		}
+		return '␀'
+	}, k)
+	return []any{map[string]any{"class": "first non-trivial case of this run (evaluation key)", "case": k}}
 }
